@@ -120,11 +120,27 @@ func buildHostileScenario(r *Rng, idx int, maxConns int, endings []string) *Scen
 				continue
 			}
 			msgs, class := hostileDialogue(s, r)
-			classes = append(classes, class)
 			a := Actor{Kind: "tcp", Src: clientAddr(actor), Dst: fmt.Sprintf("%s:%d", sensorIP, s.Port), Svc: s.Key}
 			if s.UDP {
 				a.Kind = "udp"
 			}
+			// hostile input inside TLS: after the protocol's own upgrade command (smtp, ftp), or from the first byte
+			// (https: the dialogue then reaches the http handler behind the handshake)
+			switch {
+			case (s.Key == "smtp" || s.Key == "ftp") && r.Chance(0.15):
+				if s.Key == "smtp" {
+					a.Ops = append(a.Ops, SendOp([]byte("EHLO x\r\n"), nil, ""), SendOp([]byte("STARTTLS\r\n"), nil, ""))
+				} else {
+					a.Ops = append(a.Ops, SendOp([]byte("AUTH TLS\r\n"), nil, ""))
+				}
+				a.Ops = append(a.Ops, Op{K: "starttls"})
+				class += "+tls"
+			case s.Key == "https" && r.Chance(0.4):
+				msgs, class = hostileDialogue(svcByKey("http"), r)
+				a.Ops = append(a.Ops, Op{K: "starttls"})
+				class += "+tls"
+			}
+			classes = append(classes, class)
 			actor++
 			total := 0
 			for _, m := range msgs {
